@@ -198,7 +198,7 @@ func runC20(c *Ctx) {
 		c.Guarded(fn, "advance the receive nonce / hand out frame bytes", Or(incr, isFrameCopy),
 			G("AEAD Open error == nil", IsNil(`^`+open+`#1$`)),
 			G("io.ReadFull(sealed frame) error == nil", IsNil(`^call:io\.ReadFull\(sc\.conn, .*\)#1$`)))
-		c.Guarded(fn, "slice the frame by the wire length", isFrameCopy, G("chunkLength <= dataMaxSize", Cmp(`^call:\(encoding/binary\.littleEndian\)\.Uint32\(`, "<=", `^const:\d+$`)))
+		frameLengthRule(c)
 		c.AtMostOncePerPath(fn, "incrNonce(recvNonce)", incr)
 		c.FollowedBy(fn, "successful Open", func(in ssa.Instruction) bool {
 			iff, ok := in.(*ssa.If)
@@ -316,4 +316,19 @@ func runC20(c *Ctx) {
 		c.Check("F", fnName(fn)+"/messages go through the FIFO send queue", n == 1, fn.Pos(), n, "")
 	}
 	c.LockPairing([]string{"lib/p2p/conn"}, map[string]string{})
+}
+
+// frameLengthRule: the plaintext of a frame is sliced by the length the peer wrote only after that length was
+// compared with the data size limit — directly, not through an addition that can wrap. Shared by C20 and C18 (the
+// read runs before the peer is authenticated).
+func frameLengthRule(c *Ctx) {
+	fn := c.Fn("lib/p2p/conn", "SecretConnection", "Read")
+	if fn == nil {
+		return
+	}
+	isFrameCopy := func(in ssa.Instruction) bool {
+		cc := callCommon(in)
+		return cc != nil && calleeNameNoPath(cc) == "copy" && strings.Contains(callPath(cc), "go-buffer-pool.Get(")
+	}
+	c.Guarded(fn, "slice the frame by the wire length", isFrameCopy, G("chunkLength <= dataMaxSize", Cmp(`^call:\(encoding/binary\.littleEndian\)\.Uint32\(`, "<=", `^const:\d+$`)))
 }
